@@ -70,9 +70,10 @@ func (c *SyncConfig) fix() error {
 	}
 
 	if c.Output.Redis.Type == RedisTypeCluster {
-		if c.Output.Replay.TargetDb == -1 || c.Output.Replay.TargetDb == 0 {
-			c.Output.Filter.DbBlacklist = []int{}
-		} else {
+		// The database blacklist names SOURCE databases and stays in force: everything a
+		// cluster target receives lands in its only database, so a listed source database
+		// must be skipped, not merged into it.
+		if c.Output.Replay.TargetDb != -1 && c.Output.Replay.TargetDb != 0 {
 			return newConfigError("redis is cluster, but targetdb is not 0")
 		}
 		for _, db := range c.Output.Replay.TargetDbMap {
